@@ -1,14 +1,52 @@
 """C17 - see lib/srvprop.py (family table, generators) and spec/H2Server.tla, spec/H2ServerTrace.tla.
 Goroutine-level model: spec/H2Teardown.tla (after the peer has gone every loop of the connection ends: C17_Exit,
 NoLoopLeft, under weak fairness of the server's own steps); the as-found configuration must violate."""
-import srvprop
+import os, json, re
+import srvprop, vlib
 
 
 def run(ctx):
     ctx.model_check('H2Teardown', 'H2Teardown.cfg', workers=8)
     ctx.model_expect_violation('H2Teardown', 'H2Teardown_asfound.cfg', 'violated', workers=8)
     srvprop.run(ctx, 'C17')
+    pool_pass(ctx)
+
+
+def pool_pass(ctx):
+    """"... and never recycles a request context that a handler is still using": the scenarios in which the connection
+    ends while handlers run are replayed with the pool recorder on (Get / Put of every pool, begin / end of every
+    handler's use of its RequestCtx, in hook order); PoolsTrace.tla folds Pools!PoolStep over the recording."""
+    from props import c19
+    thorough = ctx.tier == 'thorough'
+    scen = [s for s in srvprop.gen_c17_extra(ctx, thorough) if s['tag'] in ('many-handlers', 'stopread', 'prefix', 'late-answered', 'late-peer-reset')]
+    scen = [s for s in scen if s['tag'] != 'prefix' or not any(st.get('op') == 'finish' for st in s['steps'])][:400 if thorough else 60]
+    # handlers still running when the peer goes away, then a new connection in the same process takes contexts from the pool
+    from srvprop import req, finish
+    for k in (1, 3, 8):
+        steps = []
+        for i in range(k):
+            steps += req(1 + 2 * i)
+        scen.append({'tag': 'close-with-handlers', 'cfg': {'maxConc': 16}, 'steps': steps + [{"op": "close"}]})
+        scen.append({'tag': 'after-close-with-handlers', 'cfg': {'maxConc': 16}, 'steps': steps + [finish(1, n=3)] + steps[:0]})
+    for i, s in enumerate(scen):
+        s['id'] = i + 1
+    pools, _ = c19.pool_run(ctx, ctx.harness(), 'srv', scen, 'p17', 4)
+    merged = os.path.join(ctx.scratch, 'pool17.traces')
+    with open(merged, 'w') as mf:
+        for k, p in enumerate(pools):
+            d = json.load(open(p)); d['t'] = k + 1
+            mf.write(json.dumps(d, separators=(',', ':')) + '\n')
+    r = ctx.validate('PoolsTrace', merged, timeout=900)
+    ctx.traces += len(pools)
+    ctx.evaluations += len(scen)
+    for s_ in r.printed('BAD'):
+        m = re.match(r'(\d+) (.*)$', s_, re.S)
+        for c in json.loads(m.group(2)):
+            if c.startswith('C17:'):
+                ctx.report(c.split(' ')[0], 'pool trace: %s' % c, {'kind': 'pool', 'clause': c})
 
 
 def replay(ctx, finding):
+    if finding.get('kind') == 'pool':
+        return pool_pass(ctx)
     srvprop.replay(ctx, 'C17', finding)
